@@ -300,8 +300,8 @@ def _run_conc(sim, plan, t, model0, names):
                 old = sha(oldspec[1])
             else:
                 old = None
-            if old is not None and old.startswith(gitsim.SYMREF):
-                old = None  # remove on a symbolic ref: unconditional only
+            if kind == "add" or (old is not None and old.startswith(gitsim.SYMREF)):
+                old = None  # add_if_new takes no expected value; remove on a symbolic ref: unconditional only
             op = (kind, nameb, old, sha(newi))
             rec = {"actor": aname, "i": i, "op": op, "inv": tick(), "steps_inv": sim.steps}
             lock = None
